@@ -32,7 +32,7 @@ CLAIMS = {
         ref="DESIGN.md §4 C05"),
     "C06": dict(
         tech="static analysis: thread-confinement by effect classification of every store reachable from the check entry points over the resolved call graph (ast + call graph)",
-        text="Confinement argument valid for all schedules: every module-level object written by check-time code is a threading.local, and no reachable store is rooted in a module-level name, class object or global.",
+        text="Confinement argument valid for all schedules: every module-level object written by check-time code is a threading.local, and no reachable store is rooted in a module-level name, class object or global -- except a keyed memo whose entry is determined by its key through side-effect-free code (a lossy key or an entry computed from the binding context is a violation, anything else undecided).",
         ref="DESIGN.md §4 C06"),
     "C07": dict(
         tech="static analysis: path counting of the single call of fn, dominance of the parameter check, handler-exit analysis (exception transparency of every handler around the call of fn), generated-code hole provenance, descriptor sibling agreement (ast + CFG, after inlining of helpers new w.r.t. the pinned tree)",
@@ -52,7 +52,7 @@ CLAIMS = {
         ref="DESIGN.md §4 C10"),
     "C11": dict(
         tech="static analysis: control dependence of loader construction on should_instrument, predicate truth-table vs the statement, install/uninstall object identity, checker dataflow finder->loader->transformer (ast + CFG)",
-        text="Decides the predicate shape (equality or prefix with the dot separator), that instrumentation is control-dependent on it, install/uninstall pairing and per-install checker flow, and the two front ends' wiring.",
+        text="Decides the predicate shape (equality or prefix with the dot separator), that instrumentation is control-dependent on it, install/uninstall pairing and per-install checker flow, that the configured names reach the finder unchanged and a possibly shared name list is never mutated in place, and the two front ends' wiring.",
         ref="DESIGN.md §4 C11"),
     "C12": dict(
         tech="static analysis: entry-value flag typestate (value at every exit = value at entry, incl. BaseException edges, re-entrancy via call-graph dispatch edges), class-object store census (ast + CFG + call graph)",
@@ -60,15 +60,15 @@ CLAIMS = {
         ref="DESIGN.md §4 C12"),
     "C13": dict(
         tech="static analysis: freshness (alias vs live top-of-stack) of the bindings reported on error paths, handler order for AnnotationError, stage wiring and cause-polarity truth table (ast + CFG + call graph)",
-        text="Decides that reported bindings denote the live top of the stack, AnnotationError handlers precede Exception handlers around both checks, parameter/return messages are wired to the right stage and raise TypeCheckError, cause polarity, blame in the same context; which parameter is blamed is value-level and not decided.",
+        text="Decides that reported bindings denote the live top of the stack, AnnotationError handlers precede Exception handlers around both checks, parameter/return messages are wired to the right stage and raise TypeCheckError, cause polarity per raise site, blame in the same context, no leaked flatten flag / leaf label, no blame data memoised under a lossy rendering of the signature; which parameter is blamed is otherwise value-level and not decided.",
         ref="DESIGN.md §4 C13"),
     "C14": dict(
         tech="static analysis: interprocedural may-raise census (only ValueError from construction), guard-dominance for partial operations on the user's spec, modifier-loop and legality-matrix extraction vs the documented one (ast + CFG)",
-        text="Decides exception discipline and totality of annotation construction, the modifier loop against the documented modifier bullets, and the legality matrix {fixed,symbolic,anonymous} x {variadic,anonymous,treepath,broadcastable}; the meaning of accepted forms is C01.",
+        text="Decides exception discipline and totality of annotation construction, the modifier loop against the documented modifier bullets, the legality matrix {fixed,symbolic,anonymous} x {variadic,anonymous,treepath,broadcastable}, that the comma / trailing-# tests see the token as written, and that nothing parses or compiles a piece of the specification at construction time; the meaning of accepted forms is C01.",
         ref="DESIGN.md §4 C14"),
     "C15": dict(
         tech="static analysis: reaching-definition and order agreement in the nesting branch, union/TypeVar table, scalar-ladder prefix agreement, lazy aliases vs docs code block (ast)",
-        text="Decides agreement clauses only: nested dims/dim_str concatenated outer-first with index_variadic shifted by the outer length, dtype intersection, ValueError on double variadic/empty intersection; union members built with the same category/spec; TypeVar table; scalar ladder; aliases equal the documented definitions.",
+        text="Decides agreement clauses only: nested dims/dim_str concatenated outer-first with index_variadic shifted by the outer length, dtype intersection, ValueError on double variadic/empty intersection; union members built with the same category/spec; TypeVar table; scalar ladder (incl. the dim-kind table of the rank-0 test over all six kinds of dim objects); aliases equal the documented definitions.",
         ref="DESIGN.md §4 C15"),
     "C16": dict(
         tech="static analysis: '?'-label typestate with guard-correlated product states and re-entrancy (call-graph dispatch edges), sibling agreement of treepath prefixing, label-template key disjointness (ast + CFG)",
@@ -76,19 +76,19 @@ CLAIMS = {
         ref="DESIGN.md §4 C16"),
     "C17": dict(
         tech="static analysis: information-flow census of every use of the checked value (only isinstance / hasattr / .shape / .dtype / forwarding) in the check functions and wrappers (ast def-use)",
-        text="Non-interference: the checked value is observed only through its type, .shape and .dtype, so no element value can influence a verdict and a tracer is never concretised by jaxtyping; behaviour of jax transformations is trusted.",
+        text="Non-interference: the checked value is observed only through its type, .shape and .dtype, so no element value can influence a verdict and a tracer is never concretised by jaxtyping; the argument memo keeps every bound argument whatever its value; behaviour of jax transformations is trusted.",
         ref="DESIGN.md §4 C17"),
     "C18": dict(
         tech="static analysis: cache-tag composition, hash determinism (hashlib only), extent of the cache_from_source patch against a table of loader methods that execute module code, must-pass-through-the-transformer for every return of source_to_code (ast + CFG dominance)",
-        text="Decides that the cache tag carries a version literal and the per-loader typechecker hash, the hash is a deterministic digest, the patched region executes no module code, source validation is not bypassed, and every code object source_to_code returns was compiled from the transformed tree.",
+        text="Decides that the cache tag carries a version literal and the per-loader typechecker hash, the hash is a deterministic digest, the patched region executes no module code, source validation is not bypassed, every code object source_to_code returns was compiled from the transformed tree, and nothing run from source_to_code (which importlib calls inside the patched region) imports or executes a module named at run time.",
         ref="DESIGN.md §4 C18"),
     "C19": dict(
         tech="static analysis: dominance of the disable guard over bind/push/checks, truth table of the guard over its three atoms, branch table of _maybestr2bool vs the statement, env->update->attribute wiring (ast + CFG)",
-        text="Decides that the pass-through is taken iff at least one switch is on, is read per call, dominates every check; the switch parser equals the table in the statement; the environment variable is wired to the attribute the wrapper reads.",
+        text="Decides that the pass-through is taken iff at least one switch is on, is read per call, dominates every check; the switch parser equals the table in the statement (constant tables of spellings followed); the environment variable is wired to the attribute the wrapper reads, no other key writes it, lazily loaded settings do not reload it.",
         ref="DESIGN.md §4 C19"),
     "C20": dict(
         tech="static analysis: reducer registration, no-sentinel-on-the-wire, determinacy of every class-dict field from what the reducer replays (ast def-use)",
-        text="Decides that a reducer is registered for the metaclass at import time, replays only picklable fields, and that every attribute of an annotation class is a function of what the reducer replays (constructor arguments), including nested annotations; by-reference resolvability of categories (C03.1a).",
+        text="Decides that a reducer is registered for the metaclass at import time, replays only picklable fields, and that every attribute of an annotation class is a function of what the reducer replays (constructor arguments), including nested annotations; by-reference resolvability of categories (C03.1a); no verdict table keyed by id()/str()/name of something a reloaded copy owns.",
         ref="DESIGN.md §4 C20"),
 }
 
